@@ -1,0 +1,103 @@
+//go:build verif
+
+package fifo
+
+// Contracts for govc (contract-based deductive verification, see /verif/DESIGN.md).
+// This file contains comments only and is compiled only with the build tag `verif`.
+
+//@ guarded_by Group.reqmods reqmu C12 C13
+//@ guarded_by Group.resmods resmu C12 C13
+
+//@ pred reqOK(g *Group) = g != nil && !g.reqmu.wheld && g.reqmu.rheld == 0 && (forall i int :: 0 <= i && i < len(g.reqmods) ==> g.reqmods[i] != nil)
+//@ pred resOK(g *Group) = g != nil && !g.resmu.wheld && g.resmu.rheld == 0 && (forall i int :: 0 <= i && i < len(g.resmods) ==> g.resmods[i] != nil)
+//@ pred cntReq2(m martian.RequestModifier) = ite(typeis(m, verify.RequestVerifier), m.gUnmetReq, 0)
+//@ pred cntRes2(m martian.ResponseModifier) = ite(typeis(m, verify.ResponseVerifier), m.gUnmetRes, 0)
+
+// C12: modifiers run in the order they were added; the calls made are always a prefix of the list; without error
+// aggregation the first error is returned as it is and nothing after it runs; with aggregation all of them run.
+//@ func (*Group).ModifyRequest
+//@   serves C12
+//@   requires reqOK(g) && req != nil
+//@   modifies nReq, reqSeq, lastReqErr, http.Request.*, url.URL.*, martian.Session.hijacked, martian.Context.skipRoundTrip, martian.Context.skipLogging, martian.Context.apiRequest
+//@   modifies g.reqmu.rheld, sync.RWMutex.rheld
+//@   noframe
+//@   ensures[lock-released] reqOK(g)
+//@   ensures[calls-are-a-prefix-in-list-order] 0 <= nReq - old(nReq) && nReq - old(nReq) <= len(g.reqmods) &&
+//@        forall i int :: 0 <= i && i < nReq - old(nReq) ==> reqSeq[old(nReq) + i] == g.reqmods[i]
+//@   ensures[all-run-without-error-or-with-aggregation] result == nil || g.aggregateErrors ==> nReq - old(nReq) == len(g.reqmods)
+//@   ensures[first-error-returned-as-is-and-stops] !g.aggregateErrors && result != nil ==> result == lastReqErr
+//@   loop 0 invariant g.reqmu.rheld == 1 && !g.reqmu.wheld && merr != nil && merrIdle(merr) && !merr.gShared && (arr(merr.errs) == nil || !wasAllocated(merr.errs))
+//@   loop 0 invariant nReq - old(nReq) == rangeindex + 1 && rangeindex + 1 <= len(g.reqmods)
+//@   loop 0 invariant forall i int :: 0 <= i && i <= rangeindex ==> reqSeq[old(nReq) + i] == g.reqmods[i]
+//@   loop 0 invariant !g.aggregateErrors ==> len(merr.errs) == 0
+
+//@ func (*Group).ModifyResponse
+//@   serves C12
+//@   requires resOK(g) && res != nil
+//@   modifies nRes, resSeq, lastResErr, http.Response.*, martian.Session.hijacked, martian.Context.skipRoundTrip, martian.Context.skipLogging, martian.Context.apiRequest
+//@   modifies g.resmu.rheld, sync.RWMutex.rheld
+//@   noframe
+//@   ensures[lock-released] resOK(g)
+//@   ensures[calls-are-a-prefix-in-list-order] 0 <= nRes - old(nRes) && nRes - old(nRes) <= len(g.resmods) &&
+//@        forall i int :: 0 <= i && i < nRes - old(nRes) ==> resSeq[old(nRes) + i] == g.resmods[i]
+//@   ensures[all-run-without-error-or-with-aggregation] result == nil || g.aggregateErrors ==> nRes - old(nRes) == len(g.resmods)
+//@   ensures[first-error-returned-as-is-and-stops] !g.aggregateErrors && result != nil ==> result == lastResErr
+//@   loop 0 invariant g.resmu.rheld == 1 && !g.resmu.wheld && merr != nil && merrIdle(merr) && !merr.gShared && (arr(merr.errs) == nil || !wasAllocated(merr.errs))
+//@   loop 0 invariant nRes - old(nRes) == rangeindex + 1 && rangeindex + 1 <= len(g.resmods)
+//@   loop 0 invariant forall i int :: 0 <= i && i <= rangeindex ==> resSeq[old(nRes) + i] == g.resmods[i]
+//@   loop 0 invariant !g.aggregateErrors ==> len(merr.errs) == 0
+
+//@ func (*Group).AddRequestModifier
+//@   serves C12
+//@   requires reqOK(g) && reqmod != nil
+//@   modifies g.reqmods, g.reqmu.wheld, g.reqmods[*]
+//@   ensures[appended-last-order-kept] len(g.reqmods) == old(len(g.reqmods)) + 1 && g.reqmods[old(len(g.reqmods))] == reqmod &&
+//@        forall i int :: 0 <= i && i < old(len(g.reqmods)) ==> g.reqmods[i] == old(g.reqmods[i])
+//@ func (*Group).AddResponseModifier
+//@   serves C12
+//@   requires resOK(g) && resmod != nil
+//@   modifies g.resmods, g.resmu.wheld, g.resmods[*]
+//@   ensures[appended-last-order-kept] len(g.resmods) == old(len(g.resmods)) + 1 && g.resmods[old(len(g.resmods))] == resmod &&
+//@        forall i int :: 0 <= i && i < old(len(g.resmods)) ==> g.resmods[i] == old(g.resmods[i])
+
+// C13: reset reaches every verifier in the list; verification reports nil exactly when no verifier below has anything
+// unmet (the exact count over a list needs a sum over the list and is not claimed).
+//@ func (*Group).ResetRequestVerifications
+//@   serves C13
+//@   requires reqOK(g)
+//@   modifies verify.RequestVerifier.gUnmetReq, g.reqmu.wheld
+//@   ensures[every-request-verifier-in-the-list-is-reset] forall i int :: 0 <= i && i < len(g.reqmods) ==> cntReq2(g.reqmods[i]) == 0
+//@   ensures forall o *int :: o.gUnmetReq == old(o.gUnmetReq) || o.gUnmetReq == 0
+//@   loop 0 invariant g.reqmu.wheld
+//@   loop 0 invariant forall i int :: 0 <= i && i <= rangeindex && i < len(g.reqmods) ==> cntReq2(g.reqmods[i]) == 0
+//@   loop 0 invariant forall o *int :: o.gUnmetReq == old(o.gUnmetReq) || o.gUnmetReq == 0
+//@ func (*Group).ResetResponseVerifications
+//@   serves C13
+//@   requires resOK(g)
+//@   modifies verify.ResponseVerifier.gUnmetRes, g.resmu.wheld
+//@   ensures[every-response-verifier-in-the-list-is-reset] forall i int :: 0 <= i && i < len(g.resmods) ==> cntRes2(g.resmods[i]) == 0
+//@   ensures forall o *int :: o.gUnmetRes == old(o.gUnmetRes) || o.gUnmetRes == 0
+//@   loop 0 invariant g.resmu.wheld
+//@   loop 0 invariant forall i int :: 0 <= i && i <= rangeindex && i < len(g.resmods) ==> cntRes2(g.resmods[i]) == 0
+//@   loop 0 invariant forall o *int :: o.gUnmetRes == old(o.gUnmetRes) || o.gUnmetRes == 0
+
+//@ func (*Group).VerifyRequests
+//@   serves C13
+//@   requires reqOK(g)
+//@   modifies g.reqmu.wheld, sync.RWMutex.rheld
+//@   noframe
+//@   ensures[nil-iff-nothing-unmet-below] (result == nil) == (forall i int :: 0 <= i && i < len(g.reqmods) ==> cntReq2(g.reqmods[i]) == 0)
+//@   ensures[lock-released] reqOK(g)
+//@   loop 0 invariant forall i int :: 0 <= i && i < len(g.reqmods) ==> g.reqmods[i] != nil
+//@   loop 0 invariant g.reqmu.wheld && g.reqmu.rheld == 0 && merr != nil && merrIdle(merr) && !merr.gShared && len(merr.errs) >= 0 && (arr(merr.errs) == nil || !wasAllocated(merr.errs))
+//@   loop 0 invariant (len(merr.errs) == 0) == (forall i int :: 0 <= i && i <= rangeindex && i < len(g.reqmods) ==> cntReq2(g.reqmods[i]) == 0)
+//@ func (*Group).VerifyResponses
+//@   serves C13
+//@   requires resOK(g)
+//@   modifies g.resmu.wheld, sync.RWMutex.rheld
+//@   noframe
+//@   ensures[nil-iff-nothing-unmet-below] (result == nil) == (forall i int :: 0 <= i && i < len(g.resmods) ==> cntRes2(g.resmods[i]) == 0)
+//@   ensures[lock-released] resOK(g)
+//@   loop 0 invariant forall i int :: 0 <= i && i < len(g.resmods) ==> g.resmods[i] != nil
+//@   loop 0 invariant g.resmu.wheld && g.resmu.rheld == 0 && merr != nil && merrIdle(merr) && !merr.gShared && len(merr.errs) >= 0 && (arr(merr.errs) == nil || !wasAllocated(merr.errs))
+//@   loop 0 invariant (len(merr.errs) == 0) == (forall i int :: 0 <= i && i <= rangeindex && i < len(g.resmods) ==> cntRes2(g.resmods[i]) == 0)
